@@ -2,15 +2,16 @@
 # usage: confirm_seed.sh <seed-dir> <pkgdir-of-demo>   (seed-dir has patch.diff and demo_test.go.txt)
 # Confirms independently: demo passes on the unchanged tree; with the change the suite is green and the demo fails.
 export GOFLAGS=-mod=mod GOPROXY=off GOSUMDB=off GOTOOLCHAIN=local
+RACEFLAG=${RACE:+-race}   # RACE=1: run the demonstration under the race detector
 sd=$(readlink -f $1); pkg=$2
 T=$(mktemp -d /tmp/confirm.XXXXXX)
 rsync -a --exclude .git /repo/ $T/repo/
 cd $T/repo
 cp $sd/demo_test.go.txt $pkg/zz_seed_demo_test.go
-echo "== demo on unchanged tree (expect ok)"; go test -vet=off -count=1 ./$pkg 2>&1 | tail -2
+echo "== demo on unchanged tree (expect ok)"; go test $RACEFLAG -vet=off -count=1 ./$pkg 2>&1 | tail -2
 patch -s -p1 < $sd/patch.diff || { echo PATCH-FAILED; rm -rf $T; exit 2; }
 mv $pkg/zz_seed_demo_test.go $T/demo.go
 echo "== full suite with the change (expect all ok)"; go build ./... && go test -vet=off -count=1 ./... 2>&1 | grep -v "no test files" | grep -vc "^ok" 
 cp $T/demo.go $pkg/zz_seed_demo_test.go
-echo "== demo with the change (expect FAIL)"; go test -vet=off -count=1 ./$pkg 2>&1 | grep -E "^(--- FAIL|FAIL|ok)" | head -5
+echo "== demo with the change (expect FAIL)"; go test $RACEFLAG -vet=off -count=1 ./$pkg 2>&1 | grep -E "^(--- FAIL|FAIL|ok|WARNING: DATA RACE)" | head -5
 cd /; rm -rf $T
